@@ -1112,6 +1112,439 @@ GENERATORS["griddesc"] = gen_griddesc
 
 
 # ---------------------------------------------------------------------------------------------
+# grisubal step 1 (C16): the case analysis of `generate_intersection_data` and the four `*_intersec!` macros
+# (honeycomb-kernels/src/grisubal/routines/compute_intersecs.rs) -> lean/Honeycomb/Gen/GCross.lean.
+# The function is matched TOKEN BY TOKEN against the template below (layout and comments are free, everything else
+# is fixed); the holes are what the generated file records: «C:..» a cell size (cx | cy), «M:..» a macro name,
+# «D:..» `d_base` or `d_base + k`, «I:..» a (signed) integer of a pattern, «L:..» a sum of `*_base`, the offset
+# variable and integers, «O:..» a comparison operator (< | <=).  The macros' formulas are parsed into trees.
+# ---------------------------------------------------------------------------------------------
+
+GCROSS_RS = os.environ.get("GEN_LEAN_GCROSS_RS", "/repo/honeycomb-kernels/src/grisubal/routines/compute_intersecs.rs")
+GCROSS_OUT = os.environ.get("GEN_LEAN_GCROSS_OUT", os.path.join(VERIF, "lean", "Honeycomb", "Gen", "GCross.lean"))
+
+GCROSS_TEMPLATE = r"""
+pub(crate) fn generate_intersection_data<T: CoordsFloat>(
+    cmap: &CMap2<T>,
+    geometry: &Geometry2<T>,
+    [nx, _ny]: [usize; 2],
+    [cx, cy]: [T; 2],
+    origin: Vertex2<T>,
+) -> (Segments, Vec<(DartIdType, T)>) {
+    let tmp: Vec<_> = geometry
+        .segments
+        .iter()
+        .map(|&(v1_id, v2_id)| {
+            let Vertex2(ox, oy) = origin;
+            let (v1, v2) = (&geometry.vertices[v1_id], &geometry.vertices[v2_id]);
+            let (c1, c2) = (
+                GridCellId(
+                    ((v1.x() - ox) / «C:cell1x»).floor().to_usize().unwrap(),
+                    ((v1.y() - oy) / «C:cell1y»).floor().to_usize().unwrap(),
+                ),
+                GridCellId(
+                    ((v2.x() - ox) / «C:cell2x»).floor().to_usize().unwrap(),
+                    ((v2.y() - oy) / «C:cell2y»).floor().to_usize().unwrap(),
+                ),
+            );
+            (
+                GridCellId::l1_dist(&c1, &c2),
+                GridCellId::offset(&c1, &c2),
+                v1,
+                v2,
+                v1_id,
+                v2_id,
+                c1,
+            )
+        })
+        .collect();
+    let n_intersec: usize = tmp.iter().map(|(dist, _, _, _, _, _, _)| dist).sum();
+    let prefix_sum = tmp
+        .iter()
+        .map(|(dist, _, _, _, _, _, _)| dist)
+        .scan(0, |state, &dist| {
+            *state += dist;
+            Some(*state - dist)
+        });
+    let mut intersection_metadata = vec![(NULL_DART_ID, T::nan()); n_intersec];
+    let new_segments: Segments = tmp.iter().zip(prefix_sum).flat_map(|(&(dist, diff, v1, v2, v1_id, v2_id, c1), start)| {
+        let transform = Box::new(|seg: &[GeometryVertex]| {
+            assert_eq!(seg.len(), 2);
+            (seg[0].clone(), seg[1].clone())
+        });
+        match dist {
+            0 => {
+                vec![(make_geometry_vertex!(geometry, v1_id), make_geometry_vertex!(geometry, v2_id))]
+            }
+            1 => {
+                let d_base = (1 + 4 * c1.0 + nx * 4 * c1.1) as DartIdType;
+                let dart_id = match diff {
+                    («I:u0i», «I:u0j») => «D:u0d»,
+                    («I:u1i», «I:u1j») => «D:u1d»,
+                    («I:u2i», «I:u2j») => «D:u2d»,
+                    («I:u3i», «I:u3j») => «D:u3d»,
+                    _ => unreachable!(),
+                };
+                let v_dart = cmap
+                    .force_read_vertex(cmap.vertex_id(dart_id))
+                    .expect("E: found a topological vertex with no associated coordinates");
+                let (_s, t) = match diff {
+                    («I:w0i», «I:w0j») => «M:w0m»!(v1, v2, v_dart, «C:w0c»),
+                    («I:w1i», «I:w1j») => «M:w1m»!(v1, v2, v_dart, «C:w1c»),
+                    («I:w2i», «I:w2j») => «M:w2m»!(v1, v2, v_dart, «C:w2c»),
+                    («I:w3i», «I:w3j») => «M:w3m»!(v1, v2, v_dart, «C:w3c»),
+                    _ => unreachable!(),
+                };
+                let id = start;
+                intersection_metadata[id] = (dart_id, t);
+                vec![
+                    (make_geometry_vertex!(geometry, v1_id), GeometryVertex::Intersec(id)),
+                    (GeometryVertex::Intersec(id), make_geometry_vertex!(geometry, v2_id)),
+                ]
+            }
+            _ => {
+                let i_ids = start..start+dist;
+                match diff {
+                    (i, 0) => {
+                        let i_base = c1.0 as isize;
+                        let tmp =
+                            (min(«L:h_lo1», «L:h_lo2»)..max(«L:h_hi1», «L:h_hi2»)).zip(i_ids).map(|(x, id)| {
+                                let d_base =
+                                    (1 + 4 * x + (nx * 4 * c1.1) as isize) as DartIdType;
+                                let dart_id = if i.is_positive() { «D:h_pd» } else { «D:h_nd» };
+                                let v_dart = cmap.force_read_vertex(cmap.vertex_id(dart_id))
+                                    .expect("E: found a topological vertex with no associated coordinates");
+                                let (_s, t) = if i.is_positive() {
+                                    «M:h_pm»!(v1, v2, v_dart, «C:h_pc»)
+                                } else {
+                                    «M:h_nm»!(v1, v2, v_dart, «C:h_nc»)
+                                };
+                                intersection_metadata[id] = (dart_id, t);
+                                GeometryVertex::Intersec(id)
+                            });
+                        let mut vs: VecDeque<GeometryVertex> = if i > 0 {
+                            tmp.collect()
+                        } else {
+                            tmp.rev().collect()
+                        };
+                        vs.push_front(make_geometry_vertex!(geometry, v1_id));
+                        vs.push_back(make_geometry_vertex!(geometry, v2_id));
+                        vs.make_contiguous()
+                            .windows(2)
+                            .map(transform)
+                            .collect::<Vec<_>>()
+                    }
+                    (0, j) => {
+                        let j_base = c1.1 as isize;
+                        let tmp =
+                            (min(«L:v_lo1», «L:v_lo2»)..max(«L:v_hi1», «L:v_hi2»)).zip(i_ids).map(|(y, id)| {
+                                let d_base = (1 + 4 * c1.0 + nx * 4 * y as usize) as DartIdType;
+                                let dart_id = if j.is_positive() { «D:v_pd» } else { «D:v_nd» };
+                                let v_dart = cmap.force_read_vertex(cmap.vertex_id(dart_id))
+                                    .expect("E: found a topological vertex with no associated coordinates");
+                                let (_s, t) = if j.is_positive() {
+                                    «M:v_pm»!(v1, v2, v_dart, «C:v_pc»)
+                                } else {
+                                    «M:v_nm»!(v1, v2, v_dart, «C:v_nc»)
+                                };
+                                intersection_metadata[id] = (dart_id, t);
+                                GeometryVertex::Intersec(id)
+                            });
+                        let mut vs: VecDeque<GeometryVertex> = if j > 0 {
+                            tmp.collect()
+                        } else {
+                            tmp.rev().collect()
+                        };
+                        vs.push_front(make_geometry_vertex!(geometry, v1_id));
+                        vs.push_back(make_geometry_vertex!(geometry, v2_id));
+                        vs.make_contiguous()
+                            .windows(2)
+                            .map(transform)
+                            .collect::<Vec<_>>()
+                    }
+                    (i, j) => {
+                        let i_base = c1.0 as isize;
+                        let j_base = c1.1 as isize;
+                        let i_cell_range = min(«L:dx_lo1», «L:dx_lo2»)..=max(«L:dx_hi1», «L:dx_hi2»);
+                        let j_cell_range = min(«L:dy_lo1», «L:dy_lo2»)..=max(«L:dy_hi1», «L:dy_hi2»);
+                        let subgrid_cells =
+                            i_cell_range.flat_map(|x| j_cell_range.clone().map(move |y| (x, y)));
+                        let mut intersec_data: Vec<(T, T, DartIdType)> = subgrid_cells
+                            .map(|(x, y)| {
+                                let d_base = (1 + 4 * x + nx as isize * 4 * y) as DartIdType;
+                                let vdart_id = if i.is_positive() { «D:dv_pd» } else { «D:dv_nd» };
+                                let hdart_id = if j.is_positive() { «D:dh_pd» } else { «D:dh_nd» };
+                                let v_vdart = cmap.force_read_vertex(cmap.vertex_id(vdart_id))
+                                    .expect("E: found a topological vertex with no associated coordinates");
+                                let v_hdart = cmap.force_read_vertex(cmap.vertex_id(hdart_id))
+                                    .expect("E: found a topological vertex with no associated coordinates");
+                                let v_coeffs = if i.is_positive() {
+                                    «M:dv_pm»!(v1, v2, v_vdart, «C:dv_pc»)
+                                } else {
+                                    «M:dv_nm»!(v1, v2, v_vdart, «C:dv_nc»)
+                                };
+                                let h_coeffs = if j.is_positive() {
+                                    «M:dh_pm»!(v1, v2, v_hdart, «C:dh_pc»)
+                                } else {
+                                    «M:dh_nm»!(v1, v2, v_hdart, «C:dh_nc»)
+                                };
+                                (hdart_id, vdart_id, v_coeffs, h_coeffs)
+                            })
+                            .filter_map(|(hdart_id, vdart_id, (vs, vt), (hs, ht))| {
+                                let zero = T::zero();
+                                let one = T::one();
+                                match (i.is_positive(), j.is_positive()) {
+                                    (true, true) | (false, false) => {
+                                        if ((vt - one).abs() «O:k0» T::epsilon())
+                                            && (ht.abs() «O:k1» T::epsilon())
+                                        {
+                                            return Some((hs, zero, hdart_id));
+                                        }
+                                    }
+                                    (false, true) | (true, false) => {
+                                        if (vt.abs() «O:k2» T::epsilon())
+                                            && ((ht - one).abs() «O:k3» T::epsilon())
+                                        {
+                                            return Some((vs, zero, vdart_id));
+                                        }
+                                    }
+                                }
+                                if (T::epsilon() «O:a0» vs)
+                                    & (vs «O:a1» one - T::epsilon())
+                                    & (T::epsilon() «O:a2» vt)
+                                    & (vt «O:a3» one - T::epsilon())
+                                {
+                                    return Some((vs, vt, vdart_id));
+                                }
+                                if (T::epsilon() «O:b0» hs)
+                                    & (hs «O:b1» one - T::epsilon())
+                                    & (T::epsilon() «O:b2» ht)
+                                    & (ht «O:b3» one - T::epsilon())
+                                {
+                                    return Some((hs, ht, hdart_id));
+                                }
+                                None
+                            })
+                            .collect();
+                        intersec_data.retain(|(s, _, _)| (T::zero() «O:r0» *s) && (*s «O:r1» T::one()));
+                        intersec_data.sort_by(|(s1, _, _), (s2, _, _)| s1.partial_cmp(s2)
+                            .expect("E: unreachable"));
+                        let mut vs = vec![make_geometry_vertex!(geometry, v1_id)];
+                        vs.extend(intersec_data.iter_mut().zip(i_ids).map(|((_, t, dart_id), id)| {
+                            if t.is_zero() {
+                                let dart_in = *dart_id;
+                                GeometryVertex::IntersecCorner(dart_in)
+                            } else {
+                                intersection_metadata[id] = (*dart_id, *t);
+                                GeometryVertex::Intersec(id)
+                            }
+                        }));
+                        vs.push(make_geometry_vertex!(geometry, v2_id));
+                        vs.windows(2)
+                            .map(transform)
+                            .collect::<Vec<_>>()
+                    }
+                }
+            }
+        }
+    }).collect();
+    (new_segments, intersection_metadata)
+}
+"""
+
+GX_TOKEN = re.compile(r"«[^»]*»|[A-Za-z_][A-Za-z_0-9]*|\d+|\.\.=|\.\.|=>|->|::|&&|\|\||<=|>=|==|!=|\S")
+GX_HOLES = {"C": r"cx|cy", "M": r"\w+", "D": r"d_base(?: \+ \d+)?", "I": r"(?:- )?\d+", "L": r"[a-z_0-9]+(?: \+ [a-z_0-9]+)*", "O": r"<=|<"}
+GX_MACROS = ["left_intersec", "right_intersec", "down_intersec", "up_intersec"]
+
+
+def gx_tokens(s):
+    return GX_TOKEN.findall(s)
+
+
+def gx_macro_expr(toks, where):
+    """tokens of a macro formula -> Lean term of GxE (grammar: - * / and parentheses over $v.x() $v.y() s $c)"""
+    pos = [0]
+
+    def peek():
+        return toks[pos[0]] if pos[0] < len(toks) else None
+
+    def eat(t=None):
+        need(pos[0] < len(toks) and (t is None or toks[pos[0]] == t), f"{where}: unexpected token at {' '.join(toks[pos[0]:pos[0] + 6])!r}")
+        pos[0] += 1
+        return toks[pos[0] - 1]
+
+    def atom():
+        if peek() == "(":
+            eat("(")
+            e = sums()
+            eat(")")
+            return e
+        if peek() == "s":
+            eat()
+            return ".s"
+        eat("$")
+        v = eat()
+        if v == "c":
+            return ".c"
+        need(v in ("va", "vb", "vdart"), f"{where}: unknown macro variable ${v}")
+        eat(".")
+        ax = eat()
+        need(ax in ("x", "y"), f"{where}: unknown accessor .{ax}()")
+        eat("(")
+        eat(")")
+        return "." + {"va": "va", "vb": "vb", "vdart": "vd"}[v] + ax
+
+    def prods():
+        e = atom()
+        while peek() in ("*", "/"):
+            op = eat()
+            e = f"({'.mul' if op == '*' else '.div'} {e} {atom()})"
+        return e
+
+    def sums():
+        e = prods()
+        while peek() == "-":
+            eat()
+            e = f"(.sub {e} {prods()})"
+        return e
+
+    e = sums()
+    need(pos[0] == len(toks), f"{where}: trailing tokens {' '.join(toks[pos[0]:])!r}")
+    return e
+
+
+def gx_lin(txt, base, off, where):
+    b = o = k = 0
+    for t in txt.split(" + "):
+        if t == base:
+            b += 1
+        elif t == off:
+            o += 1
+        else:
+            need(t.isdigit(), f"{where}: term {t!r} in range bound {txt!r}")
+            k += int(t)
+    return f"⟨{b}, {o}, {k}⟩"
+
+
+def gen_gcross():
+    src = strip_comments(open(GCROSS_RS).read())
+    src = re.sub(r"#\[[^\]]*\]", " ", src)
+    text = " ".join(gx_tokens(src))
+    # the macros
+    names = re.findall(r"macro_rules ! (\w+) \{", text)
+    need(sorted(n for n in names if n.endswith("_intersec")) == sorted(GX_MACROS) and
+         sorted(names) == sorted(GX_MACROS + ["make_geometry_vertex"]), f"gcross: macros {names}")
+    order = [n for n in names if n.endswith("_intersec")]
+    macros = []
+    for n in order:
+        m = re.search(r"macro_rules ! %s \{ \( \$ va : ident , \$ vb : ident , \$ vdart : ident , \$ (cx|cy) : ident \) => "
+                      r"\{ \{ let s = ([^;{}]*) ; \( s , ([^;{}]*) \) \} \} ; \}" % n, text)
+        need(m, f"gcross: macro {n}! not recognised")
+        cname = m.group(1)
+
+        def tr(e, allow_s):
+            toks = ["c" if t == cname else t for t in e.split(" ")]
+            need(allow_s or "s" not in toks, f"gcross: macro {n}!: `s` used in its own definition")
+            return gx_macro_expr(toks, f"gcross[{n}]")
+        macros.append((n, tr(m.group(2), False), tr(m.group(3), True)))
+    # the function
+    i0 = text.find("pub ( crate ) fn generate_intersection_data")
+    need(i0 >= 0 and text.count("fn generate_intersection_data") == 1, "gcross: fn generate_intersection_data not found exactly once")
+    rx, seen = [], []
+    for t in gx_tokens(GCROSS_TEMPLATE):
+        if t.startswith("«"):
+            kind, nm = t[1:-1].split(":")
+            seen.append(nm)
+            rx.append(f"(?P<{nm}>{GX_HOLES[kind]})")
+        else:
+            rx.append(re.escape(t))
+    m = re.fullmatch(" ".join(rx), text[i0:])
+    if not m:
+        # locate the first token that differs, for the message
+        lo, hi = 0, len(rx)
+        while lo < hi:
+            mid = (lo + hi + 1) // 2
+            if re.match(" ".join(rx[:mid]), text[i0:]):
+                lo = mid
+            else:
+                hi = mid - 1
+        raise Shape(f"gcross: generate_intersection_data departs from the template after `{' '.join(gx_tokens(GCROSS_TEMPLATE)[max(0, lo - 8):lo])}` "
+                    f"(expected `{' '.join(gx_tokens(GCROSS_TEMPLATE)[lo:lo + 4])}`)")
+    h = m.groupdict()
+
+    def mac(k):
+        need(h[k] in order, f"gcross: unknown macro {h[k]}! ({k})")
+        return order.index(h[k])
+
+    def off(k):
+        return int(h[k].split(" + ")[1]) if "+" in h[k] else 0
+
+    def side(p):
+        return f"⟨{off(p + 'd')}, {mac(p + 'm')}, .{h[p + 'c']}⟩"
+
+    def ival(k):
+        return int(h[k].replace(" ", ""))
+
+    def cmp_(k):
+        return ".lt" if h[k] == "<" else ".le"
+
+    def rng(p, base, o):
+        return "⟨" + ", ".join(gx_lin(h[f"{p}_{b}"], base, o, f"gcross[{p}]") for b in ("lo1", "lo2", "hi1", "hi2")) + "⟩"
+
+    darts = {(ival(f"u{k}i"), ival(f"u{k}j")): k for k in range(4)}
+    calls = {(ival(f"w{k}i"), ival(f"w{k}j")): k for k in range(4)}
+    need(len(darts) == 4 and set(darts) == set(calls), f"gcross: the two `match diff` of the neighbour case have different patterns: {sorted(darts)} / {sorted(calls)}")
+    units = []
+    for (di, dj), k in sorted(darts.items(), key=lambda kv: kv[1]):
+        w = calls[(di, dj)]
+        units.append(f"⟨{di}, {dj}, ⟨{off(f'u{k}d')}, {mac(f'w{w}m')}, .{h[f'w{w}c']}⟩⟩")
+    out = ["/-\n  GENERATED by /verif/tools/gen_lean.py (generator `gcross`) from /repo/honeycomb-kernels/src/grisubal/routines/compute_intersecs.rs — DO NOT EDIT.\n"
+           "  Step 1 of grisubal: the case analysis of `generate_intersection_data` and the macros `left_/right_/down_/up_intersec!`.\n\n"
+           "  `gxMacros`: the macros in source order; `s`, `t` = the two components of the pair they evaluate to, as expression trees over the\n"
+           "  coordinates of `$va`, `$vb`, `$vdart`, the macro's 4th argument (`c`) and the local `s`.\n"
+           "  A `GxSide` is one use of a macro: `off` = the dart is `d_base + off` (and `$vdart` is that dart's vertex), `mac` = index in `gxMacros`,\n"
+           "  `cell` = the cell size passed as 4th argument.  `gxCellDiv`: the divisors of the four cell coordinates (v1.x, v1.y, v2.x, v2.y).\n"
+           "  `gxUnit`: the arms of the two `match diff` of the neighbouring-cells case (`dist == 1`), pattern `(di, dj)`, source order.\n"
+           "  `gxRow` / `gxCol`: the arms `(i, 0)` / `(0, j)` of the far case: the range `min(lo1, lo2)..max(hi1, hi2)` (each bound = b·base + o·offset + k),\n"
+           "  the side used when the offset `is_positive()` and otherwise.  `gxDiag`: the arm `(i, j)`: the two INCLUSIVE ranges of the sub-grid, the four\n"
+           "  sides, the comparison operators of the corner tests (vt-1, ht / vt, ht-1), of the vertical and horizontal acceptance tests\n"
+           "  (eps ? s, s ? 1-eps, eps ? t, t ? 1-eps) and of `retain` (0 ? s, s ? 1).  Everything else of the function is fixed by the template.\n"
+           "  Props/C16Gen.lean gives the data its meaning and proves it equal to Model/Grisubal.lean.\n-/\n",
+           "namespace HC.Gen\n",
+           "inductive GxE where\n  | vax | vay | vbx | vby | vdx | vdy | s | c\n  | sub (a b : GxE)\n  | mul (a b : GxE)\n  | div (a b : GxE)\n  deriving Repr, DecidableEq\n",
+           "inductive GxCell where\n  | cx | cy\n  deriving Repr, DecidableEq\n",
+           "inductive GxCmp where\n  | lt | le\n  deriving Repr, DecidableEq\n",
+           "structure GxMacro where\n  name : String\n  s : GxE\n  t : GxE\n  deriving Repr, DecidableEq\n",
+           "structure GxSide where\n  off : Nat\n  mac : Nat\n  cell : GxCell\n  deriving Repr, DecidableEq\n",
+           "structure GxUnit where\n  di : Int\n  dj : Int\n  side : GxSide\n  deriving Repr, DecidableEq\n",
+           "structure GxLin where\n  b : Int\n  o : Int\n  k : Int\n  deriving Repr, DecidableEq\n",
+           "structure GxRange where\n  lo1 : GxLin\n  lo2 : GxLin\n  hi1 : GxLin\n  hi2 : GxLin\n  deriving Repr, DecidableEq\n",
+           "structure GxStraight where\n  range : GxRange\n  pos : GxSide\n  neg : GxSide\n  deriving Repr, DecidableEq\n",
+           "structure GxDiag where\n  xr : GxRange\n  yr : GxRange\n  vpos : GxSide\n  vneg : GxSide\n  hpos : GxSide\n  hneg : GxSide\n"
+           "  corner : List GxCmp\n  vacc : List GxCmp\n  hacc : List GxCmp\n  retain : List GxCmp\n  deriving Repr, DecidableEq\n",
+           "def gxMacros : List GxMacro :=\n  [ " + ",\n    ".join(f'{{ name := "{n}", s := {s}, t := {t} }}' for n, s, t in macros) + " ]\n",
+           "def gxCellDiv : List GxCell := [" + ", ".join("." + h[k] for k in ("cell1x", "cell1y", "cell2x", "cell2y")) + "]\n",
+           "def gxUnit : List GxUnit :=\n  [ " + ",\n    ".join(units) + " ]\n",
+           f"def gxRow : GxStraight := ⟨{rng('h', 'i_base', 'i')}, {side('h_p')}, {side('h_n')}⟩\n",
+           f"def gxCol : GxStraight := ⟨{rng('v', 'j_base', 'j')}, {side('v_p')}, {side('v_n')}⟩\n",
+           f"def gxDiag : GxDiag :=\n  {{ xr := {rng('dx', 'i_base', 'i')}, yr := {rng('dy', 'j_base', 'j')},\n"
+           f"    vpos := {side('dv_p')}, vneg := {side('dv_n')}, hpos := {side('dh_p')}, hneg := {side('dh_n')},\n"
+           f"    corner := [{', '.join(cmp_(f'k{k}') for k in range(4))}], vacc := [{', '.join(cmp_(f'a{k}') for k in range(4))}],\n"
+           f"    hacc := [{', '.join(cmp_(f'b{k}') for k in range(4))}], retain := [{', '.join(cmp_(f'r{k}') for k in range(2))}] }}\n",
+           "end HC.Gen\n"]
+    txt = "\n".join(out)
+    os.makedirs(os.path.dirname(GCROSS_OUT), exist_ok=True)
+    old = open(GCROSS_OUT).read() if os.path.exists(GCROSS_OUT) else None
+    if old != txt:
+        open(GCROSS_OUT, "w").write(txt)
+    return f"gcross: {len(macros)} macros, {len(units)}+2+1 arms, {len(seen)} holes -> {os.path.relpath(GCROSS_OUT, VERIF)}" + \
+           (" (unchanged)" if old == txt else " (rewritten)")
+
+
+GENERATORS["gcross"] = gen_gcross
+
+
+# ---------------------------------------------------------------------------------------------
 # orbit arms: which images each OrbitPolicy examines (dim2/orbits.rs, dim3/orbits.rs) and which images the 3-D
 # identifier walks push (dim3/basic_ops.rs)
 # ---------------------------------------------------------------------------------------------
@@ -1275,6 +1708,23 @@ def edge_id2(src, where):
     return int(m.group(2))
 
 
+ITER_ID = {"vertex_id": 0, "edge_id": 1, "face_id": 2, "volume_id": 3}
+
+
+def cell_iter(src, fname, where):
+    """`iter_vertices` … : `(a..self.n_darts() as DartIdType).zip(self.unused_darts.iter().skip(k)).filter_map(|(d, unused)| if
+    unused.read_atomic() { None } else { Some(d) }).filter_map(|d| { let x = self.<id>(d); if d == x { Some(x) } else { None } })`
+    -> [id function, range start a, skip k, 1 = the flagged darts are the ones dropped]"""
+    b = "".join(fn_body(src, fname).split())
+    m = re.fullmatch(r"\((\d+)\.\.self\.n_darts\(\)asDartIdType\)\.zip\(self\.unused_darts\.iter\(\)\.skip\((\d+)\)\)"
+                     r"\.filter_map\(\|\(d,unused\)\|\{?ifunused\.read_atomic\(\)\{(None|Some\(d\))\}else\{(None|Some\(d\))\}\}?,?\)"
+                     r"\.filter_map\(\|d\|\{let(\w+)=self\.(\w+)\(d\);if(?:d==\5|\5==d)\{Some\(\5\)\}else\{None\}\}\)", b)
+    need(m, f"{where} {fname}: iterator shape not recognised: {b[:160]!r}")
+    need({m.group(3), m.group(4)} == {"None", "Some(d)"}, f"{where} {fname}: the flag filter keeps or drops both ways")
+    need(m.group(6) in ITER_ID, f"{where} {fname}: unknown identifier function {m.group(6)}")
+    return [ITER_ID[m.group(6)], int(m.group(1)), int(m.group(2)), 1 if m.group(3) == "None" else 0]
+
+
 def lean_paths(ps):
     return "[" + ", ".join("[" + ", ".join(str(i) for i in p) + "]" for p in ps) + "]"
 
@@ -1314,6 +1764,12 @@ def gen_orbits():
                ",\n".join(f'  ({k}, {lean_paths(ps)})' for k, (f, ps) in enumerate(ids2)) + "]\n")
     out.append(f"/-- `CMap2::edge_id_transac`: reads this β image of the dart and answers the dart when it is null, the smaller of the two otherwise -/\n"
                f"def edgeIdImage2 : Nat := {e2}\n")
+    its2 = [cell_iter(o2, f, "dim2/basic_ops.rs") for f in ("iter_vertices", "iter_edges", "iter_faces")]
+    its3 = [cell_iter(o3, f, "dim3/basic_ops.rs") for f in ("iter_vertices", "iter_edges", "iter_faces", "iter_volumes")]
+    out.append("/-- the cell iterators of dim2/basic_ops.rs (iter_vertices, iter_edges, iter_faces) and dim3/basic_ops.rs (… , iter_volumes):\n"
+               "    [identifier function (0 vertex_id, 1 edge_id, 2 face_id, 3 volume_id), start of the dart range, number of flags skipped,\n"
+               "    1 = a dart whose removal flag is set is dropped]; the second filter keeps d exactly when the identifier of d is d -/\n"
+               f"def cellIters2 : List (List Nat) := {its2}\n" f"def cellIters3 : List (List Nat) := {its3}\n")
     out.append("end HC.Gen\n")
     txt = "\n".join(out)
     os.makedirs(os.path.dirname(ORBIT_OUT), exist_ok=True)
